@@ -62,7 +62,8 @@ COMPONENTS = {"real": ["operon_ai.topology.loops.CoherentFeedForwardLoop (run, b
                        "threading.Lock (SimLock)", "the OS scheduler (seeded line-granularity scheduler, threads family)"]}
 ASSUMPTIONS = [
     "definite failures are: an agent raising, and an executor FAILURE verdict beside an assessor PERMIT under AND / "
-    "UNANIMOUS / ASSESSOR_PRIORITY; definite successes: both agents permit and the reply is not blocked; intentional "
+    "UNANIMOUS / ASSESSOR_PRIORITY / EXECUTOR_PRIORITY (not under OR, where the request passes on the assessor's key, nor "
+    "under MAJORITY, which the statement does not define); definite successes: both agents permit and the reply is not blocked; intentional "
     "blocks: an assessor BLOCK beside a non-failing executor (AND/UNANIMOUS/both PRIORITY logics), an executor BLOCK "
     "beside a PERMIT (AND/UNANIMOUS), BLOCK/BLOCK under OR; everything else (UNKNOWN/DEFER mismatches, FAILURE beside "
     "BLOCK, all of MAJORITY) is neutral: it may or may not be counted",
@@ -89,7 +90,8 @@ EXPECT_PROBES = ("opened", "half_open_seen", "probe_success_closed", "probe_fail
                  "threads_run", "overlapping_requests", "overlap_while_recovering", "closed_zero_sample_during_overlap",
                  "overlap_all_failing_judged", "overlap_certainly_open_judged", "post_continuation_request",
                  "preempted_while_holding_a_lock", "observer_raised", "request_in_flight_over_others",
-                 "request_spans_clock_move", "last_failure_pinned_after_clock_move", "request_after_inconclusive_probe")
+                 "request_spans_clock_move", "last_failure_pinned_after_clock_move", "request_after_inconclusive_probe",
+                 "earlier_last_failure_candidates_pruned")
 
 EXEC_PERMITS = ("EXECUTE", "PERMIT")
 EXC = {"RuntimeError": RuntimeError, "ValueError": ValueError, "TimeoutError": TimeoutError, "KeyError": KeyError}
@@ -119,6 +121,8 @@ def classify(logic, ez, ay):
             return "fail" if ay == "PERMIT" else "neutral"
         return "block" if ay == "BLOCK" else "neutral"
     if logic == "EXECUTOR_PRIORITY":
+        if ez == "FAILURE" and ay == "PERMIT":
+            return "fail"      # the executor failed and nobody blocked: a failure whatever action string the gate gives it
         return "block" if (ay == "BLOCK" and ez != "FAILURE") else "neutral"
     if logic == "OR":
         return "block" if (ez == "BLOCK" and ay == "BLOCK") else "neutral"
@@ -148,22 +152,22 @@ STRATEGIES = [(1, {"kind": "serial"}), (2, {"kind": "uniform"}), (2, {"kind": "s
 STEPS_PER_REQUEST = 60
 
 
-def _few_preemptions(rng, plan):
-    """Half of the threads plans carry an explicit schedule instead of a seeded strategy: task a runs, is pre-empted
-    at its n-th decision point in favour of task b, which runs on (to completion unless pre-empted in turn after m
-    more decision points).  Most check-then-act races need exactly one or two pre-emptions at the right line;
+def _few_preemptions(rng, plan, share=0.5, span=80):
+    """A share (half) of the threads plans carry an explicit schedule instead of a seeded strategy: task a runs, is
+    pre-empted at its n-th decision point in favour of task b, which runs on (to completion unless pre-empted in turn
+    after m more decision points).  Most check-then-act races need exactly one or two pre-emptions at the right line;
     drawing the line uniformly reaches each of them far more often than a random walk over all decisions."""
     x = rng.random()
-    if x >= 0.5:
+    if x >= share:
         return
     nt = len(plan["tasks"])
     a = rng.randrange(nt)
     b = rng.choice([t for t in range(nt) if t != a])
     sw = [[0, a]] if a != 0 else []
-    n = rng.randrange(1, 80)
+    n = rng.randrange(1, span)
     sw.append([n, b])
-    if x < 0.15:
-        sw.append([n + rng.randrange(1, 80), a if nt == 2 or rng.random() < 0.6 else rng.choice([t for t in range(nt) if t not in (a, b)])])
+    if x < 0.3 * share:
+        sw.append([n + rng.randrange(1, span), a if nt == 2 or rng.random() < 0.6 else rng.choice([t for t in range(nt) if t not in (a, b)])])
     plan["config"]["strategy"] = {"kind": "replay", "preemptions": len(sw) - (1 if a != 0 else 0)}
     plan["switches"] = sw
 
@@ -183,7 +187,9 @@ def _gen_trip_in_flight(rng, cfg, profile):
     slow = [req("failure", {"at": rng.choice(["executor", "assessor"]), "stall": dt} if rng.random() < 0.4 else None)]
     tripper = [req("failure")]
     if len(slow[0]) == 4 or rng.random() < 0.5:
-        tripper.append(["clock", "adv", dt])
+        # time passes while the slow request is in flight: before the other task's request (its failure is then the later
+        # one, recorded at the later instant) or after it
+        tripper.insert(rng.choice([0, 1]), ["clock", "adv", dt])
     if rng.random() < 0.3:
         tripper.append(req(rng.choice(["failure", "success"])))
     tasks = [slow, tripper] if rng.random() < 0.5 else [tripper, slow]
@@ -196,7 +202,9 @@ def _gen_trip_in_flight(rng, cfg, profile):
     if cfg["strategy"]["kind"] == "pct":
         cfg["strategy"]["est"] = STEPS_PER_REQUEST * 2
     plan = {"family": "threads", "config": cfg, "pre": pre, "tasks": tasks, "post": post}
-    _few_preemptions(rng, plan)
+    # the interesting windows here are one or two lines wide (between a clock read / a state check and the lock): mostly
+    # explicit one- and two-pre-emption schedules, drawn over the length of one request
+    _few_preemptions(rng, plan, share=0.8, span=70)
     return plan
 
 
@@ -207,8 +215,8 @@ def _gen_threads(rng, tier):
            "breaker": rng.random() < 0.93, "cache": rng.random() < 0.3, "ttl": 300.0,
            "callbacks": weighted(rng, CALLBACKS), "strategy": dict(weighted(rng, STRATEGIES))}
     profile = weighted(rng, [(3, "exc"), (3, "fail"), (4, "mixed")])
-    scenario = weighted(rng, [(4.0, "open_elapsed"), (2.0, "closed"), (1.2, "open_young"), (1.3, "random"),
-                              (2.0, "trip_in_flight")])
+    scenario = weighted(rng, [(4.5, "open_elapsed"), (2.0, "closed"), (1.0, "open_young"), (1.2, "random"),
+                              (3.0, "trip_in_flight")])
     if scenario == "trip_in_flight":
         return _gen_trip_in_flight(rng, cfg, profile)
     pid = [0]
@@ -1033,6 +1041,14 @@ def _run_threads(plan, k):
                 k.probe("last_failure_pinned_after_clock_move")
             for t in sorted(set(instants)):
                 w.cands.append([t, r["cls"]])
+    if definite:
+        # the clock only moved forward in this phase and records are serialised, so the failure recorded last carries the
+        # largest reading; every definite failure was recorded no earlier than its agent's answer: the last failure is not
+        # older than the latest of those answers
+        floor = max(clock_at(d["lo"]) for d in definite)
+        if any(c[0] < floor for c in w.cands):
+            k.probe("earlier_last_failure_candidates_pruned")
+        w.cands[:] = [c for c in w.cands if c[0] >= floor]
     del w.streak[:]
     for pid, cs in fresh_cls.items():
         both = set(cs) | ({w.answered[pid]} if pid in w.answered else set())
